@@ -89,6 +89,7 @@ def _worker(args):
                         'model': bool(rec.model_ok), 'attributed': [list(a) for a in mon.attributed[:30]],
                         'kill_points': [k.get('next_primitive') + ('/in_delete_to' if k.get('in_delete_to') else '') for k in mon.kill_infos],
                         'records': mon.records[:20], 'after_memory_loss': len(mon.after_memory_loss),
+                        'outside_scope': [list(x) for x in mon.outside_scope[:5]],
                         'stats': mon.stats, 'events': len(rec.mevents), 'triggers': mon.trigger,
                         'cfg': dict((k, v) for k, v in rec.cfg.items()), 'wall': time.time() - t0})
         except Exception:
@@ -212,7 +213,8 @@ def account(ctx, res, props, by_generator=None):
         ctx.count(COMPONENT, k, v)
     ctx.monitor.update({'traces': len(res['traces']), 'monitor_records_for_this_property': n_rec,
                         'monitor_stats': stats, 'raft_run_cached': res.get('cached'), 'raft_run_key': res['key'],
-                        'traces_after_memory_loss_records': sum(t.get('after_memory_loss', 0) for t in res['traces'] if 'crash' not in t)})
+                        'traces_after_memory_loss_records': sum(t.get('after_memory_loss', 0) for t in res['traces'] if 'crash' not in t),
+                        'records_outside_the_quantifier': [x for t in res['traces'] if 'crash' not in t for x in t.get('outside_scope', [])][:10]})
     ctx.extra['rule'] = ('traces = scripted scenarios (corpus of fixed findings) + random schedules from three generators (static clusters '
                          'of 2-5 voters; 0-3 read-only nodes; dynamic membership under the operator discipline) on the real SyncObj objects under '
                          'virtual time; every event is replayed on the Coq model and the digest of the stepped node state + outputs is compared; '
